@@ -1,7 +1,6 @@
 /-
-C05 helper lemmas, part 4: when `lost` is reported. A slot without replica is wanted only through
-`wantStep` on a writable mount in an iteration with desired > 0; conversely, with no replica
-anywhere, the second pass of the first active iteration reaches every slot and wants a writable one.
+C05 helper lemmas, part 5: generic invariant of the class loop; a loop without active class changes
+nothing (used for `lost`).
 -/
 import ArvVerif.Proofs.C05Phys
 namespace ArvVerif.C05
@@ -34,269 +33,11 @@ theorem runClasses_all_zero (env : Env) (sorter : Class → List Slot → List S
     simp only [h c (List.mem_cons_self ..), if_true]
     exact ih b (fun c' hc' => h c' (List.mem_cons_of_mem _ hc'))
 
-/-! ### where `wantMnt` entries come from -/
-
-def WantFrom (l : List Slot) (st : PassSt) : Prop :=
-  ∀ id, st.wantMnt.contains id = true →
-    ∃ s ∈ l, s.mnt.id = id ∧ (s.repl.isSome = true ∨ s.mnt.ro = false)
-
-theorem wantStep_new (d : Nat) (s : Slot) (st : PassSt) (x : Nat)
-    (h : (wantStep d s st).wantMnt.contains x = true) :
-    st.wantMnt.contains x = true ∨ (x = s.mnt.id ∧ (s.repl.isSome = true ∨ s.mnt.ro = false)) := by
-  unfold wantStep at h
-  split at h
-  · rename_i hc
-    simp only [List.contains_cons, Bool.or_eq_true, beq_iff_eq] at h
-    rcases h with h | h
-    · right
-      refine ⟨h, ?_⟩
-      simp only [Bool.and_eq_true, Bool.or_eq_true, Bool.not_eq_true'] at hc
-      exact hc.2
-    · left; exact h
-  · left; exact h
-
-theorem trySlot_wantFrom (d : Nat) (l : List Slot) (s : Slot) (hs : s ∈ l) (st : PassSt)
-    (h : WantFrom l st) : WantFrom l (trySlot d s st) := by
-  intro id hid
-  unfold trySlot at hid
-  split at hid
-  · exact h id hid
-  · simp only at hid
-    rcases wantStep_new d s _ id hid with h' | ⟨rfl, h'⟩
-    · simp only [protectStep_wantMnt] at h'; exact h id h'
-    · exact ⟨s, hs, rfl, h'⟩
-
-theorem pass1_wantFrom (d : Nat) (l : List Slot) : ∀ (l' : List Slot), (∀ s ∈ l', s ∈ l) → ∀ st : PassSt,
-    WantFrom l st → WantFrom l (pass1 d l' st) := by
-  intro l'
-  induction l' with
-  | nil => intro _ st h; exact h
-  | cons s l' ih =>
-    intro hsub st h
-    show WantFrom l (pass1 d l' (pass1Step d st s))
-    apply ih (fun x hx => hsub x (List.mem_cons_of_mem _ hx))
-    unfold pass1Step
-    split
-    · exact h
-    · split
-      · exact h
-      · exact trySlot_wantFrom d l s (hsub s (List.mem_cons_self ..)) st h
-
-theorem pass2_wantFrom (d : Nat) (l : List Slot) : ∀ (l' : List Slot), (∀ s ∈ l', s ∈ l) → ∀ st : PassSt,
-    WantFrom l st → WantFrom l (pass2 d l' st) := by
-  intro l'
-  induction l' with
-  | nil => intro _ st h; exact h
-  | cons s l' ih =>
-    intro hsub st h
-    show WantFrom l (pass2 d l' (pass2Step d st s))
-    apply ih (fun x hx => hsub x (List.mem_cons_of_mem _ hx))
-    unfold pass2Step
-    split
-    · exact h
-    · exact trySlot_wantFrom d l s (hsub s (List.mem_cons_self ..)) st h
-
-theorem classIter_wantFrom (d : Nat) (S : List Slot) (u : List Int) :
-    WantFrom S (pass2 d S (pass1 d S (passInit u))) := by
-  apply pass2_wantFrom d S S (fun _ h => h)
-  apply pass1_wantFrom d S S (fun _ h => h)
-  intro id hid
-  simp [passInit] at hid
-
-/-! ### `lost` is only reported for a block without replica that a writable mount is wanted for -/
-
-def DistinctIds (l : List Mount) : Prop := l.Pairwise (fun a b => a.id ≠ b.id)
-
-theorem distinctIds_of_perm {l₁ l₂ : List Mount} (h : l₁.Perm l₂) (hp : DistinctIds l₂) : DistinctIds l₁ :=
-  (h.pairwise_iff (fun {_ _} hab => fun e => hab e.symm)).2 hp
-
-/-- an empty slot is wanted only if its mount is writable -/
-def EmptyWantWritable (b : BState) : Prop :=
-  DistinctIds (b.slots.map (·.mnt)) ∧ ∀ s ∈ b.slots, s.repl = none → s.want = true → s.mnt.ro = false
-
-theorem classIter_emptyWantWritable (env : Env) (c : Class) (S : List Slot) (b : BState)
-    (hS : S.Perm b.slots) (h : EmptyWantWritable b) : EmptyWantWritable (classIter env c S b) := by
-  have hidS : DistinctIds (S.map (·.mnt)) := distinctIds_of_perm (hS.map _) h.1
+theorem classes_any_iff (env : Env) (classes : List Class) :
+    classes.any (fun c => env.desired c != 0) = true ↔ ∃ c ∈ classes, env.desired c ≠ 0 := by
+  rw [List.any_eq_true]
   constructor
-  · exact distinctIds_of_perm (coreRel_mnt_perm (classIter_coreRel env c hS)) h.1
-  · intro s' hs' hr hw
-    rw [classIter_slots] at hs'
-    obtain ⟨s0, hs0, rfl⟩ := List.mem_map.1 hs'
-    simp only [markWant_repl, markWant_mnt] at hr ⊢
-    rcases (markWant_want_iff _ s0).1 hw with hw0 | hw0
-    · exact h.2 s0 (hS.mem_iff.1 hs0) hr hw0
-    · obtain ⟨s1, hs1, hid, hcond⟩ := classIter_wantFrom (env.desired c) S b.utd _ hw0
-      have : s1 = s0 := eq_of_pairwise_map (fun (x : Slot) => x.mnt) (fun (a b : Mount) => a.id ≠ b.id) S hidS s1 hs1 s0 hs0
-        (fun hne => hne hid) (fun hne => hne hid.symm)
-      subst this
-      rcases hcond with hc | hc
-      · rw [hr] at hc; cases hc
-      · exact hc
-
-theorem initSlots_emptyWantWritable (mounts : List Mount) (reps : List Replica) (hid : DistinctIds mounts) :
-    EmptyWantWritable { slots := initSlots mounts reps, utd := [], underrep := false } := by
-  constructor
-  · show DistinctIds ((initSlots mounts reps).map (·.mnt))
-    rw [initSlots_mnt]; exact hid
-  · intro s hs hr hw
-    have := (mem_initSlots hs).2.2
-    rw [hr] at this
-    rw [this] at hw
-    cases hw
-
-/-! ### with no replica anywhere, an active iteration wants a writable mount -/
-
-/-- pass-state facts that hold while no visited slot has a replica -/
-def NoReplInv (st : PassSt) : Prop :=
-  st.replProt = 0 ∧ st.done = false ∧ (st.wantDev ≠ [] → st.wantMnt ≠ []) ∧ (0 < st.replWant → st.wantMnt ≠ [])
-
-theorem protectStep_none (d : Nat) (s : Slot) (st : PassSt) (h : s.repl = none) : protectStep d s st = st := by
-  unfold protectStep; rw [h]
-
-theorem contains_ne_nil {α : Type} [BEq α] {l : List α} {x : α} (h : l.contains x = true) : l ≠ [] := by
-  intro e; rw [e] at h; simp at h
-
-theorem trySlot_noRepl (d : Nat) (hd : d ≠ 0) (s : Slot) (hs : s.repl = none) (st : PassSt) (h : NoReplInv st) :
-    NoReplInv (trySlot d s st) ∧ (st.wantMnt ≠ [] → (trySlot d s st).wantMnt ≠ []) ∧
-    (s.mnt.ro = false → (trySlot d s st).wantMnt ≠ []) := by
-  obtain ⟨h1, h2, h3, h4⟩ := h
-  by_cases hc : (st.wantMnt.contains s.mnt.id || st.wantDev.contains s.mnt.dev) = true
-  · have e : trySlot d s st = { st with done := false } := by unfold trySlot; rw [if_pos hc]
-    rw [e]
-    refine ⟨⟨h1, rfl, h3, h4⟩, fun h => h, fun _ => ?_⟩
-    simp only [Bool.or_eq_true] at hc
-    rcases hc with hc | hc
-    · exact contains_ne_nil hc
-    · exact h3 (contains_ne_nil hc)
-  · have hc' := Bool.eq_false_iff.mpr hc
-    rw [Bool.or_eq_false_iff] at hc'
-    rw [trySlot_fresh d s st hc'.1 hc'.2, protectStep_none d s st hs]
-    have hdz : decide (d ≤ 0) = false := decide_eq_false (by omega)
-    have hdone : (decide (d ≤ (wantStep d s st).replProt) && decide (d ≤ (wantStep d s st).replWant)) = false := by
-      rw [wantStep_replProt, h1, hdz]; rfl
-    have key : ((wantStep d s st).wantDev ≠ [] → (wantStep d s st).wantMnt ≠ []) ∧
-        (0 < (wantStep d s st).replWant → (wantStep d s st).wantMnt ≠ []) ∧
-        (st.wantMnt ≠ [] → (wantStep d s st).wantMnt ≠ []) ∧
-        (s.mnt.ro = false → (wantStep d s st).wantMnt ≠ []) := by
-      unfold wantStep
-      by_cases hw : (decide (st.replWant < d) && (s.repl.isSome || !s.mnt.ro)) = true
-      · rw [if_pos hw]
-        exact ⟨fun _ => List.cons_ne_nil _ _, fun _ => List.cons_ne_nil _ _, fun _ => List.cons_ne_nil _ _,
-          fun _ => List.cons_ne_nil _ _⟩
-      · rw [if_neg hw]
-        refine ⟨h3, h4, fun h => h, fun hro => h4 ?_⟩
-        rw [hs, hro] at hw
-        simp at hw
-        omega
-    refine ⟨⟨?_, hdone, key.1, key.2.1⟩, key.2.2.1, key.2.2.2⟩
-    show (wantStep d s st).replProt = 0
-    rw [wantStep_replProt]; exact h1
-
-theorem pass1_noRepl (d : Nat) (hd : d ≠ 0) : ∀ (l : List Slot), (∀ s ∈ l, s.repl = none) → ∀ st : PassSt,
-    NoReplInv st → NoReplInv (pass1 d l st) := by
-  intro l
-  induction l with
-  | nil => intro _ st h; exact h
-  | cons s l ih =>
-    intro hl st h
-    show NoReplInv (pass1 d l (pass1Step d st s))
-    apply ih (fun x hx => hl x (List.mem_cons_of_mem _ hx))
-    unfold pass1Step
-    split
-    · exact h
-    · split
-      · exact h
-      · exact (trySlot_noRepl d hd s (hl s (List.mem_cons_self ..)) st h).1
-
-theorem pass2_nonempty (d : Nat) (hd : d ≠ 0) : ∀ (l : List Slot), (∀ s ∈ l, s.repl = none) → ∀ st : PassSt,
-    NoReplInv st → st.wantMnt ≠ [] → (pass2 d l st).wantMnt ≠ [] := by
-  intro l
-  induction l with
-  | nil => intro _ st _ h; exact h
-  | cons s l ih =>
-    intro hl st h hne
-    show (pass2 d l (pass2Step d st s)).wantMnt ≠ []
-    have hstep : pass2Step d st s = trySlot d s st := by unfold pass2Step; rw [h.2.1]; simp
-    rw [hstep]
-    have := trySlot_noRepl d hd s (hl s (List.mem_cons_self ..)) st h
-    exact ih (fun x hx => hl x (List.mem_cons_of_mem _ hx)) _ this.1 (this.2.1 hne)
-
-theorem pass2_wants (d : Nat) (hd : d ≠ 0) : ∀ (l : List Slot), (∀ s ∈ l, s.repl = none) →
-    (∃ w ∈ l, w.mnt.ro = false) → ∀ st : PassSt, NoReplInv st → (pass2 d l st).wantMnt ≠ [] := by
-  intro l
-  induction l with
-  | nil => intro _ ⟨w, hw, _⟩; cases hw
-  | cons s l ih =>
-    intro hl ⟨w, hw, hro⟩ st h
-    show (pass2 d l (pass2Step d st s)).wantMnt ≠ []
-    have hstep : pass2Step d st s = trySlot d s st := by unfold pass2Step; rw [h.2.1]; simp
-    rw [hstep]
-    have hl' : ∀ x ∈ l, x.repl = none := fun x hx => hl x (List.mem_cons_of_mem _ hx)
-    have := trySlot_noRepl d hd s (hl s (List.mem_cons_self ..)) st h
-    rcases List.mem_cons.1 hw with rfl | hw'
-    · exact pass2_nonempty d hd l hl' _ this.1 (this.2.2 hro)
-    · exact ih hl' ⟨w, hw', hro⟩ _ this.1
-
-theorem noReplInv_init (u : List Int) : NoReplInv (passInit u) := by
-  refine ⟨rfl, rfl, fun h => absurd rfl h, fun h => ?_⟩
-  simp [passInit] at h
-
-/-- one active iteration on a block without replicas wants some slot -/
-theorem classIter_wants (env : Env) (c : Class) (S : List Slot) (b : BState) (hd : env.desired c ≠ 0)
-    (hnone : ∀ s ∈ S, s.repl = none) (hw : ∃ w ∈ S, w.mnt.ro = false) :
-    ∃ s ∈ (classIter env c S b).slots, s.want = true := by
-  have h1 := pass1_noRepl (env.desired c) hd S hnone _ (noReplInv_init b.utd)
-  have h2 := pass2_wants (env.desired c) hd S hnone hw _ h1
-  generalize hst : pass2 (env.desired c) S (pass1 (env.desired c) S (passInit b.utd)) = st at h2
-  have hfrom : WantFrom S st := by rw [← hst]; exact classIter_wantFrom _ S b.utd
-  cases hwm : st.wantMnt with
-  | nil => exact absurd hwm h2
-  | cons id rest =>
-    have hc : st.wantMnt.contains id = true := by rw [hwm]; simp
-    obtain ⟨s, hs, hid, _⟩ := hfrom id hc
-    refine ⟨markWant st.wantMnt s, ?_, ?_⟩
-    · rw [classIter_slots, hst]; exact List.mem_map.2 ⟨s, hs, rfl⟩
-    · rw [markWant_want_iff]; right; rw [hid]; exact hc
-
-theorem runClasses_want_mono (env : Env) (sorter : Class → List Slot → List Slot) :
-    ∀ (cs : List Class) (b : BState), RunOK env sorter cs b → (∃ s ∈ b.slots, s.want = true) →
-      ∃ s ∈ (runClasses env sorter cs b).slots, s.want = true := by
-  apply runClasses_inv env sorter (fun b => ∃ s ∈ b.slots, s.want = true)
-  intro c b _ hS ⟨s, hs, hw⟩
-  show ∃ s ∈ (classIter env c (sorter c b.slots) b).slots, s.want = true
-  rw [classIter_slots]
-  exact ⟨markWant _ s, List.mem_map.2 ⟨s, hS.1.mem_iff.2 hs, rfl⟩, markWant_want_of _ s hw⟩
-
-theorem runClasses_wants (env : Env) (sorter : Class → List Slot → List Slot) :
-    ∀ (cs : List Class) (b : BState), RunOK env sorter cs b → (∀ s ∈ b.slots, s.repl = none) →
-      (∃ w ∈ b.slots, w.mnt.ro = false) → (∃ c ∈ cs, env.desired c ≠ 0) →
-      ∃ s ∈ (runClasses env sorter cs b).slots, s.want = true := by
-  intro cs
-  induction cs with
-  | nil => intro b _ _ _ ⟨c, hc, _⟩; cases hc
-  | cons c0 cs ih =>
-    intro b hok hnone hw ⟨c, hc, hd⟩
-    have hok' := hok
-    unfold RunOK at hok
-    by_cases hd0 : env.desired c0 = 0
-    · have hrun : runClasses env sorter (c0 :: cs) b = runClasses env sorter cs b := by
-        conv => lhs; unfold runClasses
-        simp [hd0]
-      simp only [hd0, if_true] at hok
-      rw [hrun]
-      rcases List.mem_cons.1 hc with rfl | hc'
-      · exact absurd hd0 hd
-      · exact ih b hok hnone hw ⟨c, hc', hd⟩
-    · have hrun : runClasses env sorter (c0 :: cs) b =
-          runClasses env sorter cs (classIter env c0 (sorter c0 b.slots) b) := by
-        conv => lhs; unfold runClasses
-        simp [hd0]
-      simp only [hd0, if_false] at hok
-      rw [hrun]
-      apply runClasses_want_mono env sorter cs _ hok.2
-      apply classIter_wants env c0 _ b hd0
-      · intro s hs; exact hnone s (hok.1.1.mem_iff.1 hs)
-      · obtain ⟨w, hw1, hw2⟩ := hw
-        exact ⟨w, hok.1.1.mem_iff.2 hw1, hw2⟩
+  · rintro ⟨c, hc, h⟩; exact ⟨c, hc, by simpa using h⟩
+  · rintro ⟨c, hc, h⟩; exact ⟨c, hc, by simpa using h⟩
 
 end ArvVerif.C05
